@@ -906,6 +906,7 @@ func init() {
 				o.finish(c)
 			}
 		}})
+		c06WaveD(x)
 	}
 }
 
